@@ -389,9 +389,65 @@ def disable(e1, e2, e3, g1, g2, g3, v):
     except Boom:
         pass
     on = V._VALIDATION_ENABLED.get()
+    # behaviour, not only the flag: an out-of-range value must be refused again
+    refused = False
+    try:
+        assign(m, "int8", 128 + (v if 0 <= v <= 1000 else 0))
+    except Exception:
+        refused = True
     V._VALIDATION_ENABLED.set(True)
-    if not on:
+    if not on or not refused:
         return False, "validation is still off after the disable block(s) were left"
+    return True, ""
+
+
+def other_thread(v, w):
+    """Validation is in force whenever execution is not inside an explicit disable block: a block entered by ANOTHER thread
+    (the manager's service loop, a sender) is not this thread's block.  shard mode:
+      held     the other thread is inside its block while this thread assigns
+      overlap  other in, this in, other out, this out (two blocks that overlap without nesting), then this thread assigns
+    symbolic: the out-of-range values assigned (v -> int8, w -> uint16 array element)"""
+    import threading
+    V._VALIDATION_ENABLED.set(True)
+    mode = sh("mode", "held")
+    m = fresh()
+    before = store(m)
+    with SH.NoTracing():
+        entered, leave = threading.Event(), threading.Event()
+
+        def body():
+            with V.disable_message_validation():
+                entered.set()
+                leave.wait(20)
+
+        th = threading.Thread(target=body, daemon=True)
+        th.start()
+        entered.wait(20)
+    try:
+        if mode == "overlap":
+            with V.disable_message_validation():
+                with SH.NoTracing():
+                    leave.set()
+                    th.join(20)
+        problems = []
+        for field, val in (("int8", v), ("uint16_arr", w)):
+            try:
+                if field == "int8":
+                    assign(m, field, val)
+                else:
+                    read(m, field)[1] = val
+                problems.append(field)
+            except Exception:
+                pass
+    finally:
+        with SH.NoTracing():
+            leave.set()
+            th.join(20)
+        V._VALIDATION_ENABLED.set(True)
+    if problems:
+        return False, "out-of-range value accepted for %s while only another thread %s a disable block" % (problems[0], "holds" if mode == "held" else "had overlapped with")
+    if not same_store(before, store(m)):
+        return False, "message changed by refused assignments"
     return True, ""
 
 
@@ -555,6 +611,22 @@ def h_disable(e1: bool, e2: bool, e3: bool, g1: bool, g2: bool, g3: bool, v: int
     post: _
     """
     return verdict(disable(e1, e2, e3, g1, g2, g3, v))
+
+
+def h_other_thread(v: int, w: int) -> bool:
+    """
+    pre: (v < -128 or v > 127) and (w < 0 or w > 65535)
+    post: _
+    """
+    return verdict(other_thread(v, w))
+
+
+def h_other_thread_reach(v: int, w: int) -> bool:
+    """
+    pre: (v < -128 or v > 127) and (w < 0 or w > 65535)
+    post: _
+    """
+    return reached(other_thread(v, w))
 
 
 def h_disable_reach(e1: bool, e2: bool, e3: bool, g1: bool, g2: bool, g3: bool, v: int) -> bool:
